@@ -446,6 +446,33 @@ func extractGenericSplit(c *core.Ctx) *genericSplit {
 			}
 		}
 		if !found {
+			// a running cursor: begin starts at 0 and advances by perMsgLength on exactly the edges on which idx advances by 1,
+			// so begin == idx*perMsgLength at the head of every iteration
+			for _, ins := range l.Header.Instrs {
+				ph, ok := ins.(*ssa.Phi)
+				if !ok {
+					break
+				}
+				if ph == g.idx || !isIntType(ph.Type()) {
+					continue
+				}
+				okCur := true
+				for i, pred := range l.Header.Preds {
+					if l.Blocks[pred] {
+						d := p.LinOf(ph.Edges[i]).Add(p.LinOf(ph), -1).Add(p.LinOf(k), -1)
+						if !d.IsConst() || d.C != 0 || !isAddOne(g.idx.Edges[i], g.idx) {
+							okCur = false
+						}
+					} else if kk, isK := constInt(ph.Edges[i]); !isK || kk != 0 {
+						okCur = false
+					}
+				}
+				if okCur {
+					mono, found = p.LinOf(ph), true
+				}
+			}
+		}
+		if !found {
 			g.problems = append(g.problems, "no product idx*perMsgLength found")
 		}
 	}
